@@ -5,6 +5,8 @@ R1.1 STATUS-PAIR     flag typestate: after a value-changing edit of a descriptio
 R1.2 CONST-MUTATION  = R13.4 restricted to Polyhedron: const members strip constness only at the
                      confirmed lazy-update sites
 R1.3 PENDING-PAIR    every insert_pending is followed by the matching set_*_pending
+R1.5 SAT-ORDER       after the non-pending rows of a description are sorted, the saturation matrix that
+                     was not carried along is no longer claimed up to date
 R1.4 PRECONDITIONS   every asserted lazy-state precondition (nothing pending, description up to
                      date) is entailed, along every CFG path, by the state of the object handed over
 Correctness of conversion / minimization / simplification and of every query's arithmetic is not decided.
@@ -90,6 +92,66 @@ def r1_1(ctx, fx):
     ctx.floor(rid, n, 35, "armed insertion events x flags")
 
 
+def r1_5(ctx, fx):
+    rid = "R1.5"
+    ctx.rule(rid, "saturation matrices follow the row order: sat_c / sat_g relate the non-pending rows of the two descriptions by position. After `D.sort_and_remove_with_sat(sat_X)` on con_sys / gen_sys (which keeps sat_X aligned) the claim of the OTHER matrix, and after a plain `D.sort_rows()` both claims, are withdrawn on every path to the exit (clear_sat_*_up_to_date, clear_*_up_to_date), known false (false edge of sat_*_is_up_to_date()) or re-established by set_sat_*_up_to_date() after the sort")
+    n = 0
+    seen = set()
+    for f in fx.functions:
+        if f.clsn != "Polyhedron" or f.flag("pattern") or not f.cfg or (f.relfile, f.line) in seen:
+            continue
+        seen.add((f.relfile, f.line))
+
+        def sort_event(x):
+            if x["k"] != "mcall" or f.call_name(x) not in ("sort_and_remove_with_sat", "sort_rows") or f.call_obj(x) is None:
+                return None
+            r = f.root(f.call_obj(x))
+            if r not in (("this", "con_sys"), ("this", "gen_sys")):
+                return None
+            kept = None
+            if f.call_name(x) == "sort_and_remove_with_sat":
+                a = f.call_args(x)
+                ra = f.root(a[0]) if a and a[0] is not None else None
+                kept = ra[1] if ra and len(ra) == 2 and ra[0] == "this" else "?"
+            return r[1], kept
+        events = [x for x in f.walk() if sort_event(x) is not None and f.cfg_pos(x) is not None]
+        for ev in events:
+            side, kept = sort_event(ev)
+            for flag in ("sat_c", "sat_g"):
+                if kept == flag:
+                    continue
+                n += 1
+                inst = "Polyhedron::%s %s.%s: %s withdrawn" % (f.name, side, f.call_name(ev) + ("(%s)" % kept if kept else "()"), flag)
+                test = flag + "_is_up_to_date"
+                clears = ("clear_%s_up_to_date" % flag, "clear_constraints_up_to_date", "clear_generators_up_to_date", "set_empty", "set_zero_dim_univ",
+                          "set_%s_up_to_date" % flag)
+
+                def done(y):
+                    return y["k"] == "mcall" and f.call_name(y) in clears and f.call_obj(y) is not None and f.root(f.call_obj(y)) == ("this",) or \
+                        (y["k"] == "mcall" and f.call_name(y) in clears and f.call_obj(y) is None)
+
+                def edge(tc, taken):
+                    cn = f.deref(tc)
+                    pol = True
+                    while cn is not None and cn["k"] == "unop" and cn.get("op") == "!":
+                        pol = not pol
+                        cn = f.deref(cn["c"][0])
+                    if cn is not None and cn["k"] == "mcall" and f.call_name(cn) == test:
+                        return (taken if pol else not taken) is False
+                    return False
+                # known false before the sort: every path to the event passes a false edge of the test
+                pre = flow.Explorer(f).find_path("ENTRY", lambda y: False, lambda y: y["i"] == ev["i"], edge_blocked=edge)
+                if pre is None:
+                    ctx.ok(rid, inst + " (known false before the sort)", f.where(ev))
+                    continue
+                post = flow.Explorer(f).find_path(f.cfg_pos(ev), done, "EXIT", edge_blocked=edge)
+                if post is None:
+                    ctx.ok(rid, inst, f.where(ev))
+                else:
+                    ctx.violation(rid, inst, f.where(ev), "the rows of %s are reordered but `%s` may still be claimed up to date at the exit (%s): the matrix no longer matches the row positions" % (side, flag, flow.render_path(f, post)))
+    ctx.floor(rid, n, 10, "sort events x saturation claims")
+
+
 PENDING = {"con_sys": "set_constraints_pending", "gen_sys": "set_generators_pending"}
 
 
@@ -154,6 +216,7 @@ def run(ctx):
     r1_1(ctx, fx)
     r1_3(ctx, fx)
     r1_4(ctx)
+    r1_5(ctx, fx)
     from rules import c13
     ctx.rule("R13.4", "see C13")
     c13.r13_4(ctx)
